@@ -139,8 +139,8 @@ def postChecks (o : Opts) (r : PReq) (t : Target) : HeadRes :=
     if (r.method = ofString "GET" || r.method = ofString "HEAD") && !o.methodGetBody then .err 400
     else .ok r t
 
-/-- http_request_parse() generalised over the protocol version (the 411 rule applies to
-    HTTP/1.x only); equals `parsePost` of Model/H1Parse.lean for versions 0 and 1 -/
+/-- http_request_parse() for every protocol version: `parsePost` of Model/H1Parse.lean with the
+    version condition of the 411 rule (HTTP/1.x only) and the RFC 8441 CONNECT flag added -/
 def parsePostV (o : Opts) (schemePort : Nat) (ext : Bool) (r : PReq) : HeadRes :=
   let special := (r.method = ofString "CONNECT" && !ext) || (r.method = ofString "OPTIONS" && r.target = [42])
   match parseTarget o special r.target with
